@@ -7,7 +7,7 @@ Ltac Zify.zify_post_hook ::= Z.to_euclidean_division_equations.
 Local Open Scope Z_scope.
 
 (* the type codes dumps emits *)
-Definition used_codes : list Z := [48; 78; 84; 70; 46; 83; 108; 102; 120; 115; 117; 40; 91; 60; 62; 123].
+Definition used_codes : list Z := [48; 78; 84; 70; 46; 83; 105; 108; 102; 120; 115; 117; 40; 91; 60; 62; 123].
 
 (* what the proof needs of a reader configuration: it knows these codes and decodes text as Python 3 does.
    Holds of xdis.marsh's reader and of CPython's marshal.c for every 3.x magic (instances at the end). *)
@@ -90,6 +90,7 @@ Qed.
 Section RT.
   Variable repr_float : Z -> list Z.
   Variable has_pos : bool.
+  Variable int_i : bool.
   Variable c : cfg.
   Hypothesis c_ok : cfg_ok c.
   Variable allow_code : bool.            (* false: plain values only (xdis.marsh's reader has no code objects) *)
@@ -128,15 +129,18 @@ Section RT.
     | _ => 1%nat
     end.
 
-  Definition dump_all := fix go (l : list pv) : list Z := match l with [] => [] | x :: r => dumps repr_float has_pos x ++ go r end.
+  Definition dump_all := fix go (l : list pv) : list Z := match l with [] => [] | x :: r => dumps repr_float has_pos int_i x ++ go r end.
   Definition textify_all := fix go (l : list pv) : list pv := match l with [] => [] | x :: r => textify repr_float x :: go r end.
   Definition depth_all := fix go (l : list pv) : nat := match l with [] => O | x :: r => Nat.max (depth x) (go r) end.
-  Definition dump_kv := fix go (l : list (pv * pv)) : list Z := match l with [] => [] | (k, x) :: r => dumps repr_float has_pos k ++ dumps repr_float has_pos x ++ go r end.
+  Definition dump_kv := fix go (l : list (pv * pv)) : list Z := match l with [] => [] | (k, x) :: r => dumps repr_float has_pos int_i k ++ dumps repr_float has_pos int_i x ++ go r end.
   Definition textify_kv := fix go (l : list (pv * pv)) := match l with [] => [] | (k, x) :: r => (textify repr_float k, textify repr_float x) :: go r end.
   Definition depth_kv := fix go (l : list (pv * pv)) : nat := match l with [] => O | (k, x) :: r => Nat.max (Nat.max (depth k) (depth x)) (go r) end.
 
-  Lemma dumps_nonempty v : wfv v -> (1 <= List.length (dumps repr_float has_pos v))%nat.
-  Proof. intros H; inversion H; subst; cbn; try lia. Qed.
+  Lemma dumps_nonempty v : wfv v -> (1 <= List.length (dumps repr_float has_pos int_i v))%nat.
+  Proof.
+    intros H; inversion H; subst; cbn [dumps]; try (cbn; lia).
+    destruct (int_i && (-2147483648 <=? z) && (z <? 2147483648)); [cbn [List.length]; lia | unfold dump_long; cbn [List.length]; lia].
+  Qed.
 
   Lemma dump_all_length l : Forall wfv l -> (List.length l <= List.length (dump_all l))%nat.
   Proof.
@@ -185,7 +189,7 @@ Section RT.
   Qed.
 
   Definition RT (f : nat) (v : pv) : Prop :=
-    forall st rest, r_object f c (with_inp st (dumps repr_float has_pos v ++ rest)) = Ok (textify repr_float v, with_inp st rest).
+    forall st rest, r_object f c (with_inp st (dumps repr_float has_pos int_i v ++ rest)) = Ok (textify repr_float v, with_inp st rest).
 
   Lemma read_objs_all f : forall l, Forall wfv l -> Forall (RT f) l ->
     forall k acc st rest, (List.length l <= k)%nat ->
@@ -277,7 +281,13 @@ Section RT.
       + cbn [dumps app]. rewrite step by used. reflexivity.
       + cbn [dumps app]. rewrite step by used. reflexivity.
       + (* int *)
-        cbn [dumps]. unfold dump_long.
+        cbn [dumps].
+        destruct (int_i && (-2147483648 <=? z) && (z <? 2147483648)) eqn:Ei.
+        { (* CPython's TYPE_INT *)
+          assert (Hz32 : - 2147483648 <= z < 2147483648) by (apply andb_true_iff in Ei; destruct Ei as [Ei1 Ei2]; apply andb_true_iff in Ei1; destruct Ei1 as [_ Ei1]; lia).
+          cbn [app]. rewrite step by used. cbn [Z.eqb Pos.eqb orb r_leaf].
+          rewrite (read_s32_w_long c z rest Hz32). cbn [bind]. reflexivity. }
+        unfold dump_long.
         set (ds := to_digits (digits_fuel (Z.abs z)) (Z.abs z)) in *.
         pose proof (long_codec (Z.abs z) (Z.abs_nonneg z)) as (Hval & Hb & Hlast). fold ds in Hval, Hb, Hlast.
         set (n := zlen ds * (if z <? 0 then -1 else 1)).
@@ -367,7 +377,7 @@ Section RT.
   Qed.
 
   (* nesting never exceeds the number of bytes written: the fuel `load` gives (one more than the input length) is enough *)
-  Lemma depth_le_len : forall n v, wfv v -> (depth v <= n)%nat -> (depth v <= List.length (dumps repr_float has_pos v))%nat.
+  Lemma depth_le_len : forall n v, wfv v -> (depth v <= n)%nat -> (depth v <= List.length (dumps repr_float has_pos int_i v))%nat.
   Proof.
     induction n as [|n IH]; intros v Hw Hd; [destruct v; cbn in Hd; lia|].
     assert (Hall : forall l, Forall wfv l -> (depth_all l <= n)%nat -> (depth_all l <= List.length (dump_all l))%nat).
@@ -391,12 +401,12 @@ Section RT.
   Qed.
 
   Theorem loads_dumps v : wfv v ->
-    r_object (S (List.length (dumps repr_float has_pos v))) c {| inp := dumps repr_float has_pos v; refs := []; strs := [] |}
+    r_object (S (List.length (dumps repr_float has_pos int_i v))) c {| inp := dumps repr_float has_pos int_i v; refs := []; strs := [] |}
     = Ok (textify repr_float v, {| inp := []; refs := []; strs := [] |}).
   Proof.
     intros Hw.
-    pose proof (marsh_roundtrip (S (List.length (dumps repr_float has_pos v))) v Hw) as H.
-    assert (Hd : (depth v <= S (List.length (dumps repr_float has_pos v)))%nat) by (pose proof (depth_le_len (depth v) v Hw (Nat.le_refl _)); lia).
+    pose proof (marsh_roundtrip (S (List.length (dumps repr_float has_pos int_i v))) v Hw) as H.
+    assert (Hd : (depth v <= S (List.length (dumps repr_float has_pos int_i v)))%nat) by (pose proof (depth_le_len (depth v) v Hw (Nat.le_refl _)); lia).
     specialize (H Hd {| inp := []; refs := []; strs := [] |} []). unfold with_inp in H. cbn [inp refs strs] in H. rewrite app_nil_r in H. exact H.
   Qed.
 End RT.
